@@ -182,6 +182,8 @@ def parse_puzz_link_url(url):
         else:
             num = [-1, -1, -1, -1]
             for j in range(4):
+                if i >= len(body):
+                    raise ValueError("compass clue is cut short")
                 if body[i] == "-":
                     num[j] = int(body[i + 1 : i + 3], 16)
                     i += 3
